@@ -221,7 +221,7 @@ def generated_modules(pool):
         for i in range(0, len(l), 3):
             if len(l[i:i + 3]) >= 2:
                 mods.append("\n\n".join(l[i:i + 3]))
-    mods += explicit_family()
+    mods += explicit_modules()
     return mods
 
 
@@ -243,6 +243,25 @@ def explicit_family():
     # several bounds in the same direction on one comprehension (F06-4)
     out.append("y = [x for x in range(10) if x > 3 if x > 5]\nz = [x for x in range(20) if x < 7 if x < 9 if x <= 5]\nprint(y, z)\n")
     return out
+
+
+# rule-level inputs for sites where an order of iteration can reach the text (found by reading; each is a
+# regression witness of a repaired defect or a watch-point)
+EXPLICIT_RULE_OPS = [
+    ("fixes.singleton_eq_comparison", "a = \"abc\"\nb = \"\"\"abc\"\"\"\nz = foo(\"abc\") == None\nprint(a, b, z)\n", (), {}),
+    ("fixes.singleton_eq_comparison", "a = f\"{q}abc\"\nb = f\"\"\"{q}abc\"\"\"\nz = foo(f\"{q}abc\") == None\nprint(a, b, z)\n", (), {}),
+    ("fixes.undefine_unused_variables", "x = 1; x = 2\nprint(x)\n", (), {"preserve": frozenset()}),
+    ("fixes.undefine_unused_variables", "def f():\n    y = 1; y = 2; y = 3\n    return y\n\n\nprint(f())\n", (), {"preserve": frozenset()}),
+    ("fixes.swap_if_else", "def f(x):\n    if x:\n        a()\n        b()\n        c()\n        d()\n        return 1\n    return 2\n\n\n"
+                           "for y in z:\n    if y:\n        a()\n        b()\n        c()\n        d()\n        continue\n    break\n", (), {}),
+    ("fixes.missing_context_manager", "f = open(\"a\")\nx = f.read()\ndef g():\n    h = open(\"b\")\n    y = h.read()\n    return y\nprint(g(), x)\n", (), {}),
+    ("object_oriented.fix_unconventional_class_definitions", "class A:\n    class B:\n        z = 1\n    B.x = 1\n    q = 2\nA.y = 2\n", (), {}),
+    ("tracing.fix_reimported_names", "from pyrefact.fixes import Path, Path as P\nprint(Path, P)\n", (), {}),
+]
+
+
+def explicit_modules():
+    return explicit_family() + [op[1] for op in EXPLICIT_RULE_OPS]
 
 
 def disturb_heap(rnd):
@@ -456,11 +475,13 @@ def _check(run, wd, mods, farm, t_start):
     gen = generated_modules(pool)
     if quick:
         fsrc_used = fsrc[::max(1, len(fsrc) // 90)]
-        gen_used = gen[::max(1, len(gen) // 45)] + gen[-5:]
+        gen_used = gen[::max(1, len(gen) // 45)]
         seeds = [0, 1, 2, 3]
     else:
         fsrc_used, gen_used, seeds = fsrc, gen, list(range(12))
+    gen_used = gen_used + [m for m in explicit_modules() if m not in gen_used]
     fmt_inputs = fsrc_used + gen_used
+    rules += [[q, src, c05.enc(tuple(a)), c05.enc(dict(k))] for (q, src, a, k) in EXPLICIT_RULE_OPS]
     code_job = {"repo": str(common.REPO), "mode": "code", "format": fmt_inputs, "rules": rules}
     ex = ThreadPoolExecutor(max_workers=8)
     rule_seeds = [s for s in (range(8) if quick else range(24)) if s not in seeds]     # rules only: cheap
@@ -601,7 +622,8 @@ def _check(run, wd, mods, farm, t_start):
     deep_reps = 10 if quick else 30
     pops = [c05.rec_op(r) for r in pool if _encodable(r)]
     pops += [("format", s, "default") for s in (gen_used if quick else gen)]
-    explicit = [("format", s, "default") for s in explicit_family()]
+    explicit = [("format", s, "default") for s in explicit_modules()]
+    explicit += [("rule", q, src, tuple(a), dict(k)) for (q, src, a, k) in EXPLICIT_RULE_OPS]
     explicit += [("rule", "abstractions.overused_constant", s, (), {"root_is_static": True}) for s in explicit_family()]
     explicit += [("rule", "symbolic_math.simplify_constrained_range", s, (), {}) for s in explicit_family()[-1:]]
     CH = 60
